@@ -26,7 +26,7 @@ ASSUMPTIONS = [
     'the peer is reached by literal IP address, as tcpcl.agent.Agent.connect() always does (it passes the resolved '
     'address to the handler), so no DNS-ID reference exists and DNS SANs can neither match nor contradict',
 ]
-EXHAUSTIVE_PART = 'TLS negotiation table: 2 x 3 x 2 x 2 x 2 x 2 = 96 cells'
+EXHAUSTIVE_PART = 'TLS negotiation table: 96 cells against a scripted peer, and the 12 x 12 = 144 pairs of cells with two real endpoints'
 
 PEER_ADDR = '10.0.0.2'      # address of the scripted peer when the real endpoint is active
 PEER_ADDR_PASSIVE = '10.0.0.1'
@@ -57,10 +57,20 @@ def strategy(tier):
 
 
 def enumerate_cases(tier):
+    for case in pair_cases():
+        yield case
     for active, enable, require, peer_can, hs, cert in itertools.product(
             (False, True), (False, True), (None, True, False), (False, True), ('ok', 'fail'), (None, ['ip-match'])):
         yield {'kind': 'table', 'active': active, 'tls_enable': enable, 'require_tls': require, 'peer_can_tls': peer_can,
                'handshake': hs, 'sans': cert, 'nodeid': 'dtn://peer/', 'req_host': False, 'req_node': False}
+
+
+def pair_cases():
+    ''' Two real endpoints, each with its own cell of the negotiation table. '''
+    cells = list(itertools.product((False, True), (None, True, False), ('ok', 'fail')))
+    for (en_a, rq_a, hs_a), (en_b, rq_b, hs_b) in itertools.product(cells, cells):
+        yield {'kind': 'pair', 'a': {'tls_enable': en_a, 'require_tls': rq_a, 'handshake': hs_a},
+               'b': {'tls_enable': en_b, 'require_tls': rq_b, 'handshake': hs_b}}
 
 
 def pinned_cases():
@@ -152,9 +162,57 @@ def policy(case, peer_addr):
     return res
 
 
+def execute_pair(case, out):
+    ''' Both sides are real; each must obey its own policy given what the other offers. '''
+    from vlib import tcpcl_world as tw, ref9174 as r
+    cfgs = {}
+    for side, addr in (('a', PEER_ADDR_PASSIVE), ('b', PEER_ADDR)):
+        cell = case[side]
+        # each side presents a certificate naming its own address and node id
+        own_node = 'dtn://node-%s/' % side
+        der = make_cert(['ip-match', 'uri-match'], addr, own_node)
+        cfgs[side] = (cell, der, own_node)
+    script_a = {'handshake': case['a']['handshake'], 'peer_cert_der': cfgs['b'][1]}
+    script_b = {'handshake': case['b']['handshake'], 'peer_cert_der': cfgs['a'][1]}
+    cfg_a = tw.make_config(cfgs['a'][2], tls_script=script_a, tls_enable=case['a']['tls_enable'], require_tls=case['a']['require_tls'])
+    cfg_b = tw.make_config(cfgs['b'][2], tls_script=script_b, tls_enable=case['b']['tls_enable'], require_tls=case['b']['require_tls'])
+    world = tw.World(cfg_a, cfg_b)
+    world.drain(max_rounds=400)
+    wants = {}
+    for side, other in (('a', 'b'), ('b', 'a')):
+        cell = dict(case[side], peer_can_tls=case[other]['tls_enable'], sans=['ip-match', 'uri-match'], nodeid='dtn://node-%s/' % other)
+        wants[side] = policy(cell, None)
+    both = wants['a']['proceed'] and wants['b']['proceed']
+    for side, end_name, pipe in (('a', 'A', world.link.ab), ('b', 'B', world.link.ba)):
+        end = world.ends[end_name]
+        msgs, _used, _status = r.parse_stream(bytes(pipe.log))
+        sent_init = any(m['t'] == 'SESS_INIT' for m in msgs)
+        was_established = any(e['args'][0] == 'established' for e in end.signals('session_state_changed'))
+        desc = 'side %s %s vs peer %s' % (side, case[side], case['b' if side == 'a' else 'a'])
+        if not wants[side]['proceed']:
+            if sent_init:
+                out.fail('pair:sess-init-against-tls-policy', 'SESS_INIT sent although the own policy forbids proceeding (%s)' % desc)
+            if was_established:
+                out.fail('pair:established-against-tls-policy', 'established although the own policy forbids it (%s)' % desc)
+        if both and not was_established:
+            out.fail('pair:not-established', 'both policies allow the session but side %s was not established (%s)' % (side, desc))
+        if was_established:
+            secure = tw.dbuscall(end.ctx, end.hdl, 'is_secure') if not end.sock.closed else wants[side]['secured']
+            if not hasattr(secure, 'exc') and bool(secure) != wants[side]['secured']:
+                out.fail('pair:secured-state-wrong', 'is_secure() is %s, policy says %s (%s)' % (secure, wants[side]['secured'], desc))
+    for esc in world.escapes():
+        out.fail('escape:%s@%s' % (esc.exc_type, esc.frame), 'exception escaped an event-loop callback (%s): %s: %s'
+                 % (esc.source, esc.exc_type, esc.exc_msg[:140]))
+    out.nontrivial = wants['a']['attempt']
+    out.label('pair', 'both-proceed' if both else 'refused')
+
+
 def execute(case):
     from vlib import tcpcl_world as tw, ref9174 as r
     out = Outcome()
+    if case.get('kind') == 'pair':
+        execute_pair(case, out)
+        return out
     active = bool(case['active'])
     peer_addr = PEER_ADDR if active else PEER_ADDR_PASSIVE
     enable = case.get('tls_enable', True)
